@@ -17,6 +17,7 @@ pub fn new<T>(memory_capacity: usize) -> (Sender<T>, Receiver<T>) {
     // Create crossbeam channels for the underlying logic, then wrap them in our own structs,
     // along with a shared counter for memory usage.
     // We send the memory usage along with each message, so the receiving end doesn't need to re-calculate this
+    #[cfg(rjrssync_verif)] let memory_capacity = verif_hooks::capacity_override(memory_capacity);
     let (s, r) = crossbeam::channel::unbounded::<(T, usize)>();
     let counter = Arc::new(AtomicUsize::new(0));
     (
